@@ -122,6 +122,11 @@ func exploreFields(rt reflect.Type, tagName string, sorter KeySortMode) []Struct
 						Type:         ft,
 					})
 				}
+				if count[f.Type] > 1 {
+					// Reached through a type that is itself reached more than once:
+					// the multiplicity carries over, so names found below stay ambiguous.
+					nextCount[ft] = 2
+				}
 			}
 		}
 	}
